@@ -18,14 +18,15 @@ RULE = ('random 2-D/3-D crystals (all lattice systems, one or several Wyckoff se
         'only networks with a non-singular exact D (lambda_min > 0.02 |D|) - a Green function does not exist otherwise; '
         'non-trivial = every evaluated (i,j,R); distinct = (kind, sites, classes, components, sigma)')
 ASSUMPTIONS = ['integration tolerances (Nmax=4): lattice-equation residual 1e-3 (observed 1e-10..3.3e-4 typically), or - for rate ratios that the fixed '
-               'mesh cannot resolve (observed 5e-2 at Nmax=4 -> 1e-2 at Nmax=8 -> 5e-3 at 12) - reduced to at most 0.7 of it at Nmax=8 (2-D meshes converge like 1/N_k), or - convergence is not monotonic - at most half of the larger of the Nmax=4 and Nmax=8 residuals at Nmax=16 (2-D) / 12 (3-D); largest residual of a case not above 1.5 x at Nmax=8; symmetry / space-group invariance 1e-6 relative, scaling 1e-9, bias correction 1e-5',
+               'mesh cannot resolve (observed 5e-2 at Nmax=4 -> 1e-2 at Nmax=8 -> 5e-3 at 12) - reduced to at most 0.7 of it at Nmax=8 (2-D meshes converge like 1/N_k), or - convergence is not monotonic - at most half of the larger of the Nmax=4 and Nmax=8 residuals at Nmax=16 (2-D) / 12 (3-D); whenever the largest residual of a network exceeds 1e-6 it must fall to at most half (or below 1e-6) at Nmax=16 (2-D) / 12 (3-D); symmetry / space-group invariance 1e-6 relative, scaling 1e-9, bias correction 1e-5',
                'far field: evaluated with mild rates (ratios <= 2) because a nearly decoupled sub-network pushes the continuum regime beyond '
                'the mesh; g/pole within 10 % (named nearest-neighbour crystals, strong site-energy differences) or 25 % (random crystals with '
                'long jumps) at 3 and mesh/4 cells and not drifting away with distance - catches a wrong volume / sqrt(p) / factor 2 / additive constant',
                'networks that only connect a sublattice of the crystal are skipped (no unique Green function)',
                'anisotropy of the exact D limited to 50 (condition number) so that the fixed k-mesh resolves the pole']
 REQUIRED_OBS = {'eval:C10:lattice-equation': 100, 'eval:C10:swap-symmetry': 100, 'eval:C10:group-invariance': 100,
-                'eval:C10:rate-scaling:g': 20, 'eval:C10:far-field': 10, 'eval:C10:biascorrection': 10, 'multi_wyckoff': 3, 'dim2': 3}
+                'eval:C10:rate-scaling:g': 20, 'eval:C10:far-field': 10, 'eval:C10:biascorrection': 10, 'multi_wyckoff': 3, 'dim2': 3,
+                'directed_slow_long_axis': 10, 'eval:C10:converges-with-mesh': 15}
 CASE_TIMEOUT = 900
 PER_CASE = 3
 
@@ -55,7 +56,29 @@ def run_case(case):
     done = 0
     for attempt in range(12):
         if done >= PER_CASE: break
-        if attempt % 3 == 2:
+        if attempt == 0 and case['idx'] % 2 == 0:
+            # directed: uniaxial / orthorhombic cells whose long axis (short reciprocal vector) is the slow diffusion direction
+            from onsager import crystal
+            kind = ('hcp-slow-c', 'tet-slow-c', 'rect-slow-b', 'ortho-slow-c')[int(rng.integers(4))]
+            if kind == 'hcp-slow-c':
+                crys = crystal.Crystal.HCP(1., float(rng.uniform(1.5, 1.9))); cutoff = 1.01 * max(1., np.sqrt(1 / 3 + crys.lattice[2, 2] ** 2 / 4))
+            elif kind == 'tet-slow-c':
+                c = float(rng.uniform(1.15, 1.35)); crys = crystal.Crystal(np.diag([1., 1., c]), [[np.zeros(3)]]); cutoff = c + 0.01
+            elif kind == 'rect-slow-b':
+                c = float(rng.uniform(1.15, 1.35)); crys = crystal.Crystal(np.diag([1., c]), [[np.zeros(2)]]); cutoff = c + 0.01
+            else:
+                b_, c = sorted(rng.uniform(1.08, 1.38, size=2)); crys = crystal.Crystal(np.diag([1., float(b_), float(c)]), [[np.zeros(3)]]); cutoff = float(c) + 0.01
+            chem = 0
+            jn, sl = crys.jumpnetwork(chem, cutoff), crys.sitelist(chem)
+            N = len(crys.basis[chem])
+            pre, bE, preT, bET = gen.rand_thermo_interstitial(rng, len(sl), len(jn), 0.3)
+            ratio = float(np.exp(rng.uniform(np.log(0.04), np.log(0.25))))
+            zmax = [max(abs(dx[-1]) for (i, j), dx in jl) for jl in jn]
+            bET = np.array([e_ - np.log(ratio) if z > 1e-8 else e_ for e_, z in zip(bET, zmax)])
+            mon.count('directed_slow_long_axis')
+            w = {'crys': crys, 'chem': chem, 'jn': jn, 'sl': sl, 'N': N, 'inv': gen.invmap(sl, N), 'pre': pre, 'bE': bE, 'preT': preT,
+                 'bET': bET, 'spec': {'kind': kind}, 'desc': {'kind': kind, 'lattice': crys.lattice, 'ratio': ratio, 'pre': pre, 'bE': bE, 'preT': preT, 'bET': bET}}
+        elif attempt % 3 == 2:
             name = ('fcc', 'hcp', 'omega', 'honey', 'bcc', 'rumpled', 'lieb', 'diamond')[int(rng.integers(8))]
             crys, chem, cutoff = gen.named(name)
             jn, sl = crys.jumpnetwork(chem, cutoff), crys.sitelist(chem)
@@ -188,7 +211,7 @@ def run_case(case):
                 pre2, bE2 = w['pre'], w['bE'] * min(1., 1. / max(w.get('sigma', 1.5), 1e-9))
                 preT2, bET2 = w['preT'], bE2.max() + 1 + rng.uniform(0, 0.7, size=len(jn))
             else:
-                pre2, bE2 = w['pre'], w['bE'] * 0.2 / max(w['sigma'], 0.2)
+                pre2, bE2 = w['pre'], w['bE'] * 0.2 / max(w.get('sigma', 0.3), 0.2)
                 preT2, bET2 = np.ones(len(jn)), bE2.max() + 1 + rng.uniform(0, 0.7, size=len(jn))
             p2 = walk.site_prob(pre2, bE2, w['inv'])
             D2 = walk.walk_D(N, dim, p2, walk.jump_table(jn, pre2, bE2, preT2, bET2, w['inv']))
@@ -211,20 +234,25 @@ def run_case(case):
                       lambda: 'deviations of g/pole from 1 at n=3,%d along a%d (i,j)=(%d,%d): %s (limit %.2f) pre=%s bE=%s preT=%s bET=%s %s'
                       % (n2, a, i, j, devs, lim, pre2, bE2, preT2, bET2, dt()))
             GF.SetRates(w['pre'], w['bE'], w['preT'], w['bET'])
-        # convergence with the k-point density (subsample)
-        if case['idx'] % 4 == 0 and done == 1 and resids:
+        # convergence with the k-point density: whatever residual the default mesh leaves must be integration error, i.e. shrink on a much
+        # denser mesh (an error of the analytic pole / cut-off treatment stays on every mesh)
+        if done <= 2 and resids and max(resids) > 1e-6:
+            Nfine = 16 if dim == 2 else 12
             try:
-                GF6 = GFcalc.GFCrystalcalc(crys, chem, sl, jn, 8)
-                GF6.SetRates(w['pre'], w['bE'], w['preT'], w['bET'])
-                r6 = []
+                GFf = GF12[0]
+                if GFf is None:
+                    GFf = GFcalc.GFCrystalcalc(crys, chem, sl, jn, Nfine)
+                    GFf.SetRates(w['pre'], w['bE'], w['preT'], w['bET'])
+                rf = []
                 for (i, j, R) in pairs:
                     x = pos(j, R) - pos(i, np.zeros(dim))
-                    res = -esc[i] * GF6(i, j, x) - (1. if (i == j and not np.any(R)) else 0.)
+                    res = -esc[i] * GFf(i, j, x) - (1. if (i == j and not np.any(R)) else 0.)
                     for (a, k, dx, wr) in rates:
-                        if a == i: res += wr * GF6(k, j, x - dx)
-                    r6.append(abs(res))
-                mon.check(max(r6) <= max(1.5 * max(resids), 1e-7), 'C10:converges-with-mesh',
-                          lambda: 'max residual Nmax=4: %.3e, Nmax=8: %.3e %s' % (max(resids), max(r6), dt()))
+                        if a == i: res += wr * GFf(k, j, x - dx)
+                    rf.append(abs(res))
+                mon.note_max('residual_fine/coarse', max(rf) / max(resids))
+                mon.check(max(rf) <= max(0.5 * max(resids), 1e-6), 'C10:converges-with-mesh',
+                          lambda: 'max residual Nmax=4: %.3e, Nmax=%d: %.3e %s' % (max(resids), Nfine, max(rf), dt()))
             except Exception as e:
-                mon.fail('C10:Nmax8:raises:' + type(e).__name__, str(e)[:300] + dt())
+                mon.fail('C10:Nfine:raises:' + type(e).__name__, str(e)[:300] + dt())
     return mon.result(sample=sample)
